@@ -105,6 +105,61 @@ variable (p : Prog) (x : Ext) (cb : List Stmt → St → R (Flow × St))
       | ok r2 =>
         obtain ⟨lv, s2⟩ := r2
         cases lv <;> rfl
+@[gomini] theorem evalE_slice_to (n : Nat) (e hi : Expr) (st : St) :
+    evalE p x cb (n+1) (.slice e none (some hi)) st = (evalE p x cb n e st >>= fun r =>
+      match asList r.1 with
+      | none => .stuck "slice of non-list"
+      | some xs => evalE p x cb n hi r.2 >>= fun r2 =>
+        match r2.1 with
+        | .int h => if (0 : Int) ≤ 0 ∧ 0 ≤ h ∧ h ≤ (xs.length : Int) then pure (.list ((xs.take h.toNat).drop (0 : Int).toNat), r2.2) else .panic
+        | _ => .stuck "slice bound") := by
+  rw [evalE]
+  simp only [R.bind, bind, pure]
+  cases evalE p x cb n e st with
+  | panic => rfl
+  | stuck w => rfl
+  | ok r =>
+    obtain ⟨v, st1⟩ := r
+    simp only
+    cases asList v with
+    | none => rfl
+    | some xs =>
+      simp only
+      cases evalE p x cb n hi st1 with
+      | panic => rfl
+      | stuck w => rfl
+      | ok r2 =>
+        obtain ⟨lv, s2⟩ := r2
+        cases lv <;> rfl
+@[gomini] theorem evalE_slice_both (n : Nat) (e lo hi : Expr) (st : St) :
+    evalE p x cb (n+1) (.slice e (some lo) (some hi)) st = (evalE p x cb n e st >>= fun r =>
+      match asList r.1 with
+      | none => .stuck "slice of non-list"
+      | some xs => evalE p x cb n lo r.2 >>= fun r1 =>
+        match r1.1 with
+        | .int l => evalE p x cb n hi r1.2 >>= fun r2 =>
+          match r2.1 with
+          | .int h => if 0 ≤ l ∧ l ≤ h ∧ h ≤ (xs.length : Int) then pure (.list ((xs.take h.toNat).drop l.toNat), r2.2) else .panic
+          | _ => .stuck "slice bound"
+        | _ => .stuck "slice bound") := by
+  rw [evalE]
+  simp only [R.bind, bind, pure]
+  cases evalE p x cb n e st with
+  | panic => rfl
+  | stuck w => rfl
+  | ok r =>
+    obtain ⟨v, st1⟩ := r
+    simp only
+    cases asList v with
+    | none => rfl
+    | some xs =>
+      simp only
+      cases evalE p x cb n lo st1 with
+      | panic => rfl
+      | stuck w => rfl
+      | ok r1 =>
+        obtain ⟨lv, s1⟩ := r1
+        cases lv <;> rfl
 @[gomini] theorem evalE_lit (n : Nat) (fs : List (String × Expr)) (st : St) :
     evalE p x cb (n+1) (.lit fs) st = (evalFields (evalE p x cb n) fs st >>= fun r => pure (.struct r.1, r.2)) := by
   rw [evalE] <;> rfl
